@@ -197,12 +197,12 @@ def build_model_driver():
 
 # --------------------------------------------------------------------------- Go side
 
-def build_harness(race=False, skip_exports=()):
+def build_harness(race=False, skip_exports=(), blackbox=False):
     sys.path.insert(0, V)
     import mkoverlay
-    name = "verifdrv" + ("-race" if race else "") + ("-bb" if skip_exports else "")
+    name = "verifdrv" + ("-race" if race else "") + ("-bb" if (skip_exports or blackbox) else "")
     with Lock("gobuild"):
-        ov = mkoverlay.make(f"{BUILD}/overlay-{name}.json", skip_exports)
+        ov = mkoverlay.make(f"{BUILD}/overlay-{name}.json", skip_exports, blackbox)
         env = dict(GOENV)
         cmd = ["go", "build", "-tags", "verif", "-overlay", ov, "-o", f"{BUILD}/{name}"]
         if race:
